@@ -56,6 +56,12 @@ var GolibTarget = instr.Target{File: "lock/maxinflight/max_inflight.go", Funcs: 
 
 const GolibModule = "github.com/zoumo/golib"
 
+var gwReal = []string{"shipped proxy handler chain (hook H2: buildProxyHandlerChainFunc: request info, upstream info, authentication, impersonation, dispatcher ...)", "multi-cluster TokenReview authenticator and SubjectAccessReview authorizer with their caches", "UpstreamClusterController with shared informer and syncqueue", "clusters.Manager / ClusterInfo / EndpointInfo incl. GatewayHealthCheck probing", "per-endpoint client-go transports (bearer, impersonation, CancelableTransport, http.Transport) over in-bubble pipes (hook H1)", "dispatcher, UpgradeAwareHandler (non-upgrade path), vendored reverse proxy, local flow control", "upstreamcluster admission plugin (Admit + Validate) in front of the store"}
+
+var gwStub = []string{"clients (raw HTTP/1.1 bytes over pipes)", "upstream kube-apiservers (scripted http.Server per endpoint: /healthz, TokenReview, SubjectAccessReview, proxied requests held at sim points)", "control-plane object store (generated fake clientset / tracker)", "network (net.Pipe with TCP-style addresses), fake clock (testing/synctest)"}
+
+var gwAssume = []string{"plain HTTP/1.1 on both sides (no TLS handshakes, HTTP/2 or upgrades)", "between two driver steps goroutines run under a single-P Go runtime; the seed decides every stimulus (request, release, spec write, health change, clock advance), not statement interleavings", "a clean batch is evidence, not proof"}
+
 var Checks = map[string]*Check{}
 
 func reg(c *Check) { Checks[c.ID] = c }
@@ -144,10 +150,6 @@ func init() {
 			"a clean batch is evidence, not proof",
 		},
 	})
-	reg(&Check{ID: "SMOKE", Title: "debug", Batches: []Batch{{World: "gw", Profile: "smoke", Quick: 1, Thor: 1, PerProc: 1}}})
-	gwReal := []string{"shipped proxy handler chain (hook H2: buildProxyHandlerChainFunc: request info, upstream info, authentication, impersonation, dispatcher ...)", "multi-cluster TokenReview authenticator and SubjectAccessReview authorizer with their caches", "UpstreamClusterController with shared informer and syncqueue", "clusters.Manager / ClusterInfo / EndpointInfo incl. GatewayHealthCheck probing", "per-endpoint client-go transports (bearer, impersonation, CancelableTransport, http.Transport) over in-bubble pipes (hook H1)", "dispatcher, UpgradeAwareHandler (non-upgrade path), vendored reverse proxy, local flow control", "upstreamcluster admission plugin (Admit + Validate) in front of the store"}
-	gwStub := []string{"clients (raw HTTP/1.1 bytes over pipes)", "upstream kube-apiservers (scripted http.Server per endpoint: /healthz, TokenReview, SubjectAccessReview, proxied requests held at sim points)", "control-plane object store (generated fake clientset / tracker)", "network (net.Pipe with TCP-style addresses), fake clock (testing/synctest)"}
-	gwAssume := []string{"plain HTTP/1.1 on both sides (no TLS handshakes, HTTP/2 or upgrades)", "between two driver steps goroutines run under a single-P Go runtime; the seed decides every stimulus (request, release, spec write, health change, clock advance), not statement interleavings", "a clean batch is evidence, not proof"}
 	reg(&Check{
 		ID:    "C03",
 		Title: "Endpoint selection: only enabled, healthy endpoints of the policy get traffic",
@@ -157,6 +159,16 @@ func init() {
 		},
 		Rule: "each run = one cluster with 1-4 endpoints and two verb-distinguished policies with drawn subsets; 15-70 drawn steps of: client request (held at the stub or not), release of a held request (possibly reset/5xx/truncated), spec update (disable/enable, remove/add server, change a subset), health/connectivity change of a stub (500, hang, reset, refused), clock advance (0.2-11 s); distinct = distinct trace hash; non-trivial = at least one request forwarded AND at least one spec or health change",
 		Real: gwReal, Stub: gwStub, Assume: gwAssume,
+	})
+	reg(&Check{
+		ID:    "C04",
+		Title: "Forwarding fidelity: requests and responses cross the gateway unchanged",
+		Batches: []Batch{
+			{World: "gw", Profile: "c04-nofault", Quick: 120, Thor: 6000, PerProc: 1, FaultFree: true},
+			{World: "gw", Profile: "c04-faults", Quick: 60, Thor: 3000, PerProc: 1},
+		},
+		Rule: "each run = 6-30 drawn client requests written as raw HTTP/1.1 bytes (method, path segments with escaped bytes, query pairs incl. empty/repeated/encoded/malformed, end-to-end and hop-by-hop headers, X-Forwarded-For chains, bodies 0 B-256 KiB with Content-Length or chunked) against drawn scripted upstream answers (status 200-503, header sets, bodies fixed or streamed in pieces), plus gateway-terminated cases provoked through state (unknown host, DenyAllRequests gate, cluster without reachable endpoint, exhausted limiter, refused impersonation); fault profile: upstream connection reset/truncated; distinct = distinct trace hash; non-trivial = at least one forwarded request compared end to end",
+		Real: gwReal, Stub: gwStub, Assume: append([]string{"the path is compared decoded (the dispatcher rebuilds the URL from URL.Path: %2F arrives as /, recorded as an observation); query pairs url.ParseQuery rejects are outside 'query parameters'", "the HTTP layer may add User-Agent/Accept-Encoding upstream and Cache-Control/Date/Content-Length/Transfer-Encoding/Connection/sniffed Content-Type downstream"}, gwAssume...),
 	})
 	reg(&Check{ID: "SMOKE", Title: "debug", Batches: []Batch{{World: "gw", Profile: "smoke", Quick: 1, Thor: 1, PerProc: 1}}})
 }
